@@ -434,7 +434,7 @@ func IfFunc(query *Query, current Map, functionOptions *FunctionOptions, args []
 	if err != nil {
 		return nil, err
 	}
-	if *condition {
+	if condition != nil && *condition {
 		if whenTrue == nil {
 			return nil, nil
 		}
